@@ -9,7 +9,7 @@ from props import rwcommon as rc
 ID = "C02"
 PROP_FILE = "props/C02.v"
 COQ_TARGETS = ["props/C02.v"]
-THEOREMS = ["C02_emit_observing", "C02_delivered_iff", "C02_delivery_order", "C02_value", "C02_site_value", "C02_frag_stream", "C02_fun_stream"]
+THEOREMS = ["C02_emit_observing", "C02_delivered_iff", "C02_delivery_order", "C02_value", "C02_site_value", "C02_frag_stream", "C02_fun_stream", "C02_prog_stream"]
 TRUSTED_BASE = [
     "Coq 8.16.1 kernel, vm_compute for the per-program site / erasure certificates",
     "tools/impl/ref_instr.py: the independent reference instrumenter (the event table of DESIGN section 11 as probes on the source AST); "
@@ -167,7 +167,9 @@ def run(ctx, model_ok):
     if model_ok:
         # the stream of functions / calls / arguments / return (model/FragFun.v, theorem C02_fun_stream) against real runs
         from props import fragfun
-        fragfun.run_into(ctx, rng, res, 30 if ctx.tier == "quick" else 400)
+        fragfun.run_into(ctx, rng, res, 16 if ctx.tier == "quick" else 300)
+        from props import fragprog
+        fragprog.run_into(ctx, rng, res, 24 if ctx.tier == "quick" else 400)
     return res
 
 
@@ -176,4 +178,7 @@ def replay(ctx, rep):
     if case and case.get("frag") == "fun":
         from props import fragfun
         return fragfun.replay_case(case)
+    if case and case.get("frag") == "prog":
+        from props import fragprog
+        return fragprog.replay_case(case)
     return fails_on_impl(case) if case else None
